@@ -133,6 +133,17 @@ def run_case(spec, ctx):
                 want_missing = {k_: n_ - 1 - v_ for k_, v_ in want_missing.items()}
                 cn["reversed_missing_values_layouts"] = cn.get("reversed_missing_values_layouts", 0) + 1
             sch = ["explicit_euler"]
+            if want_missing and spec["i"] % 3 != 2:
+                # the same mapping object is handed to two translations (as when modules for two back ends are generated from one
+                # `other.missing_variables`): the first result is discarded, the mapping must come back unchanged and the second
+                # translation - the one that is executed below - must hand over every requested value
+                before = dict(want_missing)
+                B.generate("numpy" if be != "numpy" else "jax", sub, schemes=sch, missing_values=want_missing, remove_unused=bool(spec.get("remove_unused")))
+                cn["same_mapping_used_for_two_translations"] = cn.get("same_mapping_used_for_two_translations", 0) + 1
+                if want_missing != before:
+                    out["violations"].append({"kind": "requested_missing_values_mapping_modified", "detail": {"which": label, "component": cname, "before": before, "after": dict(want_missing), "backend": be}})
+                    want_missing = before
+                    continue
             oc = B.generate(be, sub, schemes=sch, missing_values=want_missing if want_missing else None, remove_unused=bool(spec.get("remove_unused")))
             if not oc.ok:
                 out["violations"].append({"kind": "sub_model_generation_raises", "subkind": be, "detail": {"which": label, "component": cname, "backend": be, "exc": oc.describe()[:300], "site": C.trace_site(oc.exc, 3)}})
